@@ -704,6 +704,33 @@ func ruleHashKill(c *Ctx, r *Rep) {
 		}
 	}
 	if !wrote {
+		// the one-call form: sha1.Sum(bytes), in the method or in a digest helper of one parameter
+		oneCall := func(f *ssa.Function, arg ssa.Value) (ssa.CallInstruction, bool) {
+			for _, ci := range callsIn(f) {
+				name := calleeFullName(ci)
+				if strings.HasPrefix(name, "crypto/") && strings.HasSuffix(name, ".Sum") && len(ci.Common().Args) == 1 && ci.Common().Args[0] == arg {
+					return ci, true
+				}
+			}
+			return nil, false
+		}
+		if ci, ok := oneCall(h, jsonBytes); ok {
+			wrote = true
+			r.Check(true, "hashed-bytes|"+fk, c.Pos(ci.Pos()), "the hash is fed the marshalled bytes themselves", calleeFullName(ci)+"(json bytes)")
+		} else {
+			for _, ci := range callsIn(h) {
+				g := ci.Common().StaticCallee()
+				if g == nil || !c.InModule(g) || g.Blocks == nil || len(g.Params) != 1 || len(ci.Common().Args) != 1 {
+					continue
+				}
+				if _, ok := oneCall(g, g.Params[0]); ok {
+					wrote = true
+					r.Check(ci.Common().Args[0] == jsonBytes, "hashed-bytes|"+fk, c.Pos(ci.Pos()), "the hash is fed the marshalled bytes themselves (through "+c.FuncKey(g)+")", ci.Common().Args[0].String())
+				}
+			}
+		}
+	}
+	if !wrote {
 		r.Bad("hashed-bytes|"+fk, c.FnPos(h), "hash.Write(json bytes) in the hashing method", "not found")
 	}
 	for f := range c.Graph().Reach(h) {
